@@ -2,29 +2,25 @@
 C11 — Relation managers complete each relation exactly once with all its members.
 
 Model: Osmium/Model/RelMgr.lean (statement-by-statement transcription of RelationsManager,
-MembersDatabase, RelationsDatabase; ItemStash abstractly).  Helper lemmas: Osmium/Lemmas/RelMgr.lean.
+MembersDatabase, RelationsDatabase; ItemStash abstractly).  The model's main line is the
+REPAIRED `MembersDatabaseCommon::remove` (`Cfg.fixed = true`, /repo commit 5127b06); `fixed =
+false` is the code before the repair and is kept for the regression witness of finding F7.
+Lemmas: Osmium/Lemmas/RelMgr.lean (steps), RelMgrInv.lean (run-long invariant `Inv3`:
+counter = outstanding wanted references, relation slots of the stash, handle ranges, skeleton of
+the member databases, completion log), RelMgrSpec.lean (whole runs).
 
-What is proved here for ALL configurations, relation sets, predicates and histories:
-  * `flush_threshold_irrelevant`       (global, full strength)
-  * `prepare_sorts_by_member_id`, `find_returns_all_references`   (the lookup structure)
-  * `tracked_one_element_per_wanted_reference`                    (first pass / set_ref(0) marking)
-  * `completed_exactly_once_partial`   (the completion loop of one arriving object: callback
-                                        exactly once, exactly when the counter reaches zero)
-  * `shared_member_kept_until_last_partial`  (remove(): stash item released only with the last
-                                        non-removed reference, multiplicities counted)
-  * `released_lookup_absent_false`     (F7: the clause is FALSE for the current code) and
-    `released_lookup_absent_partial`   (repaired remove(): lookup after release gives nullptr)
-The full global statements are kept as `def … : Prop` (`completed_exactly_once`,
-`members_available_in_callback`, `incomplete_listed`, `not_in_any_relation_reported`,
-`released_lookup_absent`).  MISSING for their proofs: the run-long invariant
-"counter of a live relation = number of its tracked references whose object has not arrived,
-handles of a range = handle of the arrived object, stash item live ⇔ some non-removed element
-in the range" and its preservation by `memberAdd`; the `_partial` theorems are the induction
-steps that invariant needs.  Until then the global statements are checked on every run by the
-correspondence streams and by the set-based oracle in tools/props/c11.py (which is exactly these
-definitions), and on the witnesses below by kernel evaluation.
+GLOBAL theorems, for ALL configurations (both values of `fixed`), relation sets, interest
+predicates and histories in the domain `Dom` (unique relation ids; member stream accepted by
+CheckOrder, i.e. strictly ascending, and duplicate free):
+  completed_exactly_once, completed_at_last_member, never_completed_without_wanted_members,
+  callbacks_are_the_stored_relations, incomplete_listed, not_in_any_relation_reported,
+  flush_threshold_irrelevant.
+Step-level (`_partial`, with what is missing stated at each):
+  members_available_in_callback_partial, shared_member_kept_until_last_partial,
+  released_lookup_absent_partial; completed_exactly_once_partial is the loop step from which the
+  global one is built.  Regression witness: released_lookup_absent_false (code before 5127b06).
 -/
-import Osmium.Lemmas.RelMgr
+import Osmium.Lemmas.RelMgrSpec
 
 namespace Osmium.RelMgr.C11
 
@@ -33,66 +29,113 @@ open Osmium.RelMgr Osmium.Order
 /-! ### Specification with sets -/
 
 /-- relations of interest: `new_relation` said yes -/
-def interesting (c : Cfg) (rels : List Rel) : List Rel := rels.filter c.newRel
+abbrev interesting (c : Cfg) (rels : List Rel) : List Rel := interestingRels c rels
 
-/-- wanted members of `r` (with multiplicity, in member order) -/
-def wanted (c : Cfg) (r : Rel) : List (Kind × Int) :=
-  (r.members.zipIdx.filter (fun p => wantedAt c r p.2 p.1)).map (fun p => (p.1.kind, p.1.ref))
+/-- wanted members of `r` (type, ref), with multiplicity, in member order -/
+abbrev wanted (c : Cfg) (r : Rel) : List (Kind × Int) := wantedRefs c r
 
-/-- objects of enabled types among the ops -/
-def seen (c : Cfg) (ops : List Op) : List Obj :=
-  ops.filterMap (fun op => match op with
-    | .obj o => if c.enabled o.kind then some o else none
-    | _ => none)
-
-def seenIds (c : Cfg) (ops : List Op) : List (Kind × Int) := (seen c ops).map (fun o => (o.kind, o.id))
+/-- (type, id) of the objects of enabled types among the ops, in order -/
+abbrev seen (c : Cfg) (ops : List Op) : List (Kind × Int) := seenIds c ops
 
 /-- `complete r ↔ wanted r ⊆ seen` -/
-def complete (c : Cfg) (ops : List Op) (r : Rel) : Prop := ∀ w ∈ wanted c r, w ∈ seenIds c ops
+def complete (c : Cfg) (ops : List Op) (r : Rel) : Prop := ∀ w ∈ wanted c r, w ∈ seen c ops
 
-/-- the property's domain: unique relation ids, a stream the CheckOrder accepts (strictly
-    ascending by type and id ⇒ unique ids per type), no wanted reference to id 0 (the managers
-    use ref 0 as the "not interested" mark) -/
-def Domain (c : Cfg) (rels : List Rel) (ops : List Op) : Prop :=
-  ((interesting c rels).map (·.id)).Nodup ∧
-  accepts ((seen c ops).map (fun o => (o.kind, o.id))) = true ∧
-  ∀ r ∈ interesting c rels, ∀ w ∈ wanted c r, w.2 ≠ 0
+instance (c : Cfg) (ops : List Op) (r : Rel) : Decidable (complete c ops r) := by
+  unfold complete; exact inferInstance
 
-/-- ids handed to `complete_relation`, in order -/
-def callbacks (evs : List Event) : List Int :=
-  evs.filterMap (fun e => match e with | .complete _ rid _ _ => some rid | _ => none)
+/-- the property's domain: unique ids of the interesting relations, a member stream that
+    CheckOrder accepts (strictly ascending by type and id) and that is duplicate free -/
+abbrev Domain (c : Cfg) (rels : List Rel) (ops : List Op) : Prop := Dom c rels ops
 
-/-- FULL STATEMENT (kept as a Prop, see the header): every interesting relation with at least
-    one wanted member is handed to the callback exactly once if it is complete and never
-    otherwise, and the callback happens while the object that completes it is processed. -/
-def completed_exactly_once (c : Cfg) : Prop :=
-  ∀ rels ops, Domain c rels ops → ∀ r ∈ interesting c rels, wanted c r ≠ [] →
-    (∀ [Decidable (complete c ops r)],
-      (callbacks (run c rels ops).events).count r.id = if complete c ops r then 1 else 0) ∧
-    (∀ n, (callbacks (run c rels (ops.take (n + 1))).events).count r.id = 1 →
-          (callbacks (run c rels (ops.take n)).events).count r.id = 0 →
-          complete c (ops.take (n + 1)) r ∧ ¬ complete c (ops.take n) r)
+/-! ### Completion: exactly once, at the last member, only with all members -/
 
-/-- FULL STATEMENT: inside the callback every wanted member is found and is the input object -/
-def members_available_in_callback (c : Cfg) : Prop :=
-  ∀ rels ops, Domain c rels ops → ∀ pos rid cont looks,
-    Event.complete pos rid cont looks ∈ (run c rels ops).events →
-    ∀ ml ∈ looks, ∃ o ∈ seen c ops, o.kind = ml.1.kind ∧ o.id = ml.1.ref ∧ ml.2 = .found o
+/-- Every interesting relation with at least one wanted member is handed to the completion
+    callback exactly once if all its wanted members occur in the input, and never otherwise. -/
+theorem completed_exactly_once (c : Cfg) (rels : List Rel) (ops : List Op) (d : Domain c rels ops)
+    (r : Rel) (hr : r ∈ interesting c rels) (hw : wanted c r ≠ []) :
+    (callbacks (run c rels ops).events).count r.id = if complete c ops r then 1 else 0 := by
+  obtain ⟨p, hp⟩ := List.getElem?_of_mem hr
+  obtain ⟨h1, _, h3, h4⟩ := final_facts c rels ops d p r hp
+  rw [h1]
+  by_cases hc : complete c ops r
+  · rw [if_pos hc]; exact h3.mpr ⟨hc, hw⟩
+  · rw [if_neg hc]
+    rcases h4 with h | h
+    · exact h
+    · exact absurd (h3.mp h).1 hc
 
-/-- FULL STATEMENT: `for_each_incomplete_relation` = interesting ∖ completed -/
-def incomplete_listed (c : Cfg) : Prop :=
-  ∀ rels ops, Domain c rels ops →
+/-- ... at the moment its last member arrives: if the callback count of `r` goes from 0 to 1
+    when the history is extended from `n` to `n + 1` ops (both in the domain), then op `n + 1`
+    made `r` complete; and conversely. -/
+theorem completed_at_last_member (c : Cfg) (rels : List Rel) (ops : List Op) (n : Nat)
+    (d0 : Domain c rels (ops.take n)) (d1 : Domain c rels (ops.take (n + 1)))
+    (r : Rel) (hr : r ∈ interesting c rels) (hw : wanted c r ≠ []) :
+    ((callbacks (run c rels (ops.take n)).events).count r.id = 0 ∧
+      (callbacks (run c rels (ops.take (n + 1))).events).count r.id = 1) ↔
+    (¬ complete c (ops.take n) r ∧ complete c (ops.take (n + 1)) r) := by
+  rw [completed_exactly_once c rels _ d0 r hr hw, completed_exactly_once c rels _ d1 r hr hw]
+  by_cases h0 : complete c (ops.take n) r <;> by_cases h1 : complete c (ops.take (n + 1)) r <;> simp [h0, h1]
+
+/-- The corner the managers have: an interesting relation without any wanted member has no
+    "last member" and is never completed (it is listed as incomplete, see `incomplete_listed`). -/
+theorem never_completed_without_wanted_members (c : Cfg) (rels : List Rel) (ops : List Op) (d : Domain c rels ops)
+    (r : Rel) (hr : r ∈ interesting c rels) (hw : wanted c r = []) :
+    (callbacks (run c rels ops).events).count r.id = 0 := by
+  obtain ⟨p, hp⟩ := List.getElem?_of_mem hr
+  obtain ⟨h1, _, h3, h4⟩ := final_facts c rels ops d p r hp
+  rw [h1]
+  rcases h4 with h | h
+  · exact h
+  · exact absurd hw (h3.mp h).2
+
+/-- What the callback receives is the stored copy of an interesting relation (same id and
+    content), and `complete_relation` is never called through a dead handle. -/
+theorem callbacks_are_the_stored_relations (c : Cfg) (rels : List Rel) (ops : List Op) (d : Domain c rels ops) :
+    ∀ e ∈ (run c rels ops).events, match e with
+      | .complete p rid cont _ => ∃ r, (interesting c rels)[p]? = some r ∧ rid = r.id ∧ cont = r.content
+      | .completeWild _ => False
+      | _ => True := by
+  intro e he
+  have i := final_inv3 c rels ops d
+  rw [State.events, List.mem_reverse, (run_fields c rels ops).1] at he
+  have := i.inv2.logok e he
+  cases e with
+  | complete p rid cont looks =>
+    obtain ⟨hp, h1, h2⟩ := this
+    have hp' : (interesting c rels)[p]? = some (interesting c rels)[p] := by simp [hp]
+    have := RmOf_id c _ p _ hp'
+    exact ⟨_, hp', by rw [h1, this.1], by rw [h2, this.2]⟩
+  | completeWild q => exact this
+  | notIn k id => trivial
+  | query k id r => trivial
+  | thrown => trivial
+
+/-- `for_each_incomplete_relation` = the interesting relations never handed to the callback
+    (in input order): relations with missing members are all listed, completed ones never. -/
+theorem incomplete_listed (c : Cfg) (rels : List Rel) (ops : List Op) (d : Domain c rels ops) :
     (run c rels ops).incomplete =
-      ((interesting c rels).filter (fun r => r.id ∉ callbacks (run c rels ops).events)).map (·.id)
+      ((interesting c rels).filter (fun r => decide (r.id ∉ callbacks (run c rels ops).events))).map (·.id) :=
+  incomplete_eq c rels ops d
 
-/-- FULL STATEMENT: `*_not_in_any_relation` exactly for the objects no interesting relation wants -/
-def not_in_any_relation_reported (c : Cfg) : Prop :=
-  ∀ rels ops, Domain c rels ops → ∀ o ∈ seen c ops,
-    (Event.notIn o.kind o.id ∈ (run c rels ops).events ↔
-      ∀ r ∈ interesting c rels, (o.kind, o.id) ∉ wanted c r)
+/-- `node/way/relation_not_in_any_relation` is called exactly for the arriving objects (of
+    enabled types) that no interesting relation wants. -/
+theorem not_in_any_relation_reported (c : Cfg) (rels : List Rel) (ops : List Op) (d : Domain c rels ops)
+    (k : Kind) (id : Int) :
+    Event.notIn k id ∈ (run c rels ops).events ↔
+      ((k, id) ∈ seen c ops ∧ ∀ r ∈ interesting c rels, (k, id) ∉ wanted c r) :=
+  notIn_iff c rels ops d k id
 
-/-- FULL STATEMENT: a lookup never yields a pointer into a released stash entry; after the
-    last relation needing an object was completed the lookup reports it as absent. -/
+/-- FULL STATEMENT (not yet a theorem, see `members_available_in_callback_partial`): inside the
+    callback every wanted member is found and is the input object -/
+def members_available_in_callback (c : Cfg) : Prop :=
+  ∀ rels ops, Domain c rels ops →
+    (∀ r ∈ interesting c rels, ∀ w ∈ wanted c r, w.2 ≠ 0) →
+    ∀ pos rid cont looks,
+    Event.complete pos rid cont looks ∈ (run c rels ops).events →
+    ∀ ml ∈ looks, ∃ o ∈ seenObjs c ops, o.kind = ml.1.kind ∧ o.id = ml.1.ref ∧ ml.2 = .found o
+
+/-- FULL STATEMENT (not yet a theorem for `fixed = true`, refuted for `fixed = false`): a lookup
+    never yields a pointer into a released stash entry -/
 def released_lookup_absent (c : Cfg) : Prop :=
   ∀ rels ops, Domain c rels ops → ∀ k id, Event.query k id .wild ∉ (run c rels ops).events
 
@@ -149,7 +192,7 @@ theorem tracked_one_element_per_wanted_reference (c : Cfg) (r : Rel) (pos : Nat)
       simp only [List.filter_cons]
       cases hk : a.1.kind <;> by_cases hw : wantedAt c r a.2 a.1 = true <;> simp [hw, ih] <;> omega
   · intro k
-    simp only [trackElems, wanted, List.map_map, List.filter_map, List.filter_filter]
+    simp only [trackElems, wantedRefs, List.map_map, List.filter_map, List.filter_filter]
     generalize r.members.zipIdx = l
     induction l with
     | nil => simp
@@ -160,14 +203,12 @@ theorem tracked_one_element_per_wanted_reference (c : Cfg) (r : Rel) (pos : Nat)
 
 /-! ### Completion: exactly once, exactly when the counter reaches zero -/
 
-/-- `_partial` of `completed_exactly_once` — the induction step for one arriving object.
-    `ps` are the relation positions of the elements in the object's range (one per reference).
-    For every relation `p` whose counter `m ≥ 1` is at least the number of its references in the
-    range (the invariant: counter = outstanding references): `handle_complete_relation` runs for
-    `p` exactly once if this object supplies all `m` outstanding references (also when `p`
-    references the object several times), and not at all otherwise; the counter ends at
-    `m -` (references in the range).  MISSING for the global statement: preservation of
-    "counter = outstanding references" over the whole run (see the header). -/
+/-- The loop step `completed_exactly_once` is built from (kept as its own obligation): for one
+    arriving object, `ps` = relation positions of the elements in the object's range (one per
+    reference).  For every relation `p` whose counter `m` is at least the number of its
+    references in the range: `handle_complete_relation` runs for `p` exactly once if this object
+    supplies all `m ≥ 1` outstanding references (also when `p` references the object several
+    times), and not at all otherwise; the counter ends at `m -` (references in the range). -/
 theorem completed_exactly_once_partial (c : Cfg) (p : Nat) (ps : List Nat) (s : State) (m : Nat)
     (hm : missingAt s p = some m) (hcount : ps.count p ≤ m) :
     missingAt (completeLoop c s ps) p = some (m - ps.count p) ∧
@@ -183,13 +224,48 @@ theorem completion_is_local (c : Cfg) (s : State) (pos : Nat) :
     (∀ p, p ≠ pos → missingAt (handleComplete c s pos) p = missingAt s p) :=
   ⟨(handleComplete_frame c s pos).1, (handleComplete_frame c s pos).2.1⟩
 
+/-! ### Members inside the callback -/
+
+/-- `_partial` of `members_available_in_callback` — the two steps it consists of:
+    (1) the lookups the callback performs are evaluated in the state BEFORE any member of the
+    relation is released (`handle_complete_relation` calls `complete_relation` first), one per
+    member with `ref ≠ 0`, in member order; (2) a lookup whose range starts with a live handle
+    returns exactly the stored object.
+    MISSING for the full statement: the member-handle part of the run-long invariant ("all
+    elements of the range of an arrived object carry its handle and the stash item is live while
+    a non-removed element exists"), which needs the coupling "non-removed elements of p in a
+    range = members of p not yet removed" inside `removeMembers`; until then the clause is
+    covered on every run by the oracle monitor `member-not-available-in-callback` (plain, ASan
+    and assert builds). -/
+theorem members_available_in_callback_partial (c : Cfg) (s : State) (pos : Nat) (r : Rel)
+    (hrel : s.relAt pos = some r) :
+    (handleComplete c s pos).log =
+      Event.complete pos r.id r.content
+        ((r.members.filter (fun m => m.ref ≠ 0)).map (fun m => (m, s.lookup m.kind m.ref))) :: s.log ∧
+    (∀ (k : Kind) (id : Int) (e : Elem) (rest : List Elem) (o : Obj), id ≠ 0 →
+      (splitRange (s.getDb k) id).2.1 = e :: rest → e.h ≠ 0 → stashGet s.stash e.h = some (.obj o) →
+      s.lookup k id = .found o) := by
+  constructor
+  · unfold handleComplete
+    rw [hrel]
+    simp only []
+    rw [relRemove_log, (removeMembers_frame c r.id r.members _).2, (possiblyFlush_frame c _).2]
+    rfl
+  · intro k id e rest o hid hr hh hst
+    unfold State.lookup dbLookup
+    rw [if_neg hid, hr]
+    simp [hh, hst]
+
 /-! ### Shared members -/
 
 /-- `_partial` of `shared_member_kept_until_last` — one `remove(member_id, relation_id)`:
     the stash item is released exactly when the range has ONE non-removed element left
     (references counted with multiplicity, over all relations and duplicates inside one
     relation); otherwise the stash is untouched, so the object stays retrievable.
-    MISSING for the global statement: as in the header. -/
+    MISSING for the global statement ("stays available until the last relation needing it has
+    been completed"): the member-handle part of the run-long invariant, see
+    `members_available_in_callback_partial`; covered on every run by the oracle monitor
+    `shared-member-released-early` and the members-database counts. -/
 theorem shared_member_kept_until_last_partial (c : Cfg) (s : State) (k : Kind) (id relid : Int) :
     (countNotRemoved (splitRange (s.getDb k) id).2.1 ≠ 1 → (dbRemove c s k id relid).stash = s.stash) ∧
     (∀ e0 rest, (splitRange (s.getDb k) id).2.1 = e0 :: rest → countNotRemoved (e0 :: rest) = 1 →
@@ -222,11 +298,13 @@ def f7Rels : List Rel := [⟨1, 0, [⟨.way, 10⟩]⟩]
 def f7Ops : List Op := [.obj ⟨.way, 10, 7⟩, .query .way 10]
 
 theorem f7_domain (fixed : Bool) : Domain (cfgAll fixed) f7Rels f7Ops := by
-  cases fixed <;> (unfold Domain; decide +kernel)
+  cases fixed <;> exact ⟨by decide +kernel, by decide +kernel, by decide +kernel⟩
 
-/-- The clause "a later lookup reports released objects as absent" is FALSE for the current
-    `MembersDatabaseCommon::remove` (finding F7, key `members-db-lookup-after-release`): the
-    handle stays in the element and `get_object` computes a pointer from the removed stash entry. -/
+/-- Regression witness of finding F7 (key `members-db-lookup-after-release`, repaired in /repo
+    commit 5127b06): for `MembersDatabaseCommon::remove` as it was BEFORE the repair
+    (`fixed = false`) the clause "a later lookup reports released objects as absent" is FALSE:
+    the handle stays in the element and `get_object` computes a pointer from the removed stash
+    entry. -/
 theorem released_lookup_absent_false : ¬ released_lookup_absent (cfgAll false) := by
   intro h
   exact h f7Rels f7Ops (f7_domain false) .way 10 (by decide +kernel)
@@ -234,8 +312,11 @@ theorem released_lookup_absent_false : ¬ released_lookup_absent (cfgAll false) 
 /-- `_partial` of `released_lookup_absent`, for the REPAIRED `remove()` (`fixed = true`:
     the handles of the range are invalidated together with the stash item), on databases
     sorted by member id: right after the `remove` call that releases the object, a lookup of
-    its id gives `absent` (nullptr).  MISSING for the global statement: as in the header
-    (in particular "lookups inside callbacks always find a live item"). -/
+    its id gives `absent` (nullptr).  MISSING for the global statement `released_lookup_absent
+    (fixed = true)`: the invariant "every element handle is invalid or refers to a live object
+    item with the element's type and id" threaded through the chain dbRemove → … → runOps (its
+    preservation by `dbRemove` uses exactly this theorem's argument); covered on every run by the
+    oracle monitor `members-db-lookup-after-release` (stable key of F7) incl. the ASan build. -/
 theorem released_lookup_absent_partial (c : Cfg) (hfix : c.fixed = true) (s : State) (k : Kind) (id relid : Int)
     (hs : SortedById (s.getDb k))
     (hlast : countNotRemoved (splitRange (s.getDb k) id).2.1 = 1) :
@@ -287,7 +368,7 @@ def demoRels : List Rel :=
 def demoOps : List Op :=
   [.obj ⟨.node, 5, 50⟩, .obj ⟨.node, 6, 60⟩, .obj ⟨.way, 10, 100⟩, .query .way 10, .obj ⟨.way, 11, 110⟩, .query .way 10]
 
-example : Domain (cfgAll false) demoRels demoOps := by unfold Domain; decide +kernel
+example : Domain (cfgAll false) demoRels demoOps := ⟨by decide +kernel, by decide +kernel, by decide +kernel⟩
 
 /-- every clause of the property on the demo history (current code): relation 3 completes once
     although node 5 is referenced twice; relation 2 completes when way 10 arrives, relation 1
